@@ -77,6 +77,10 @@ TStep ==
        /\ ChkS(tr, 1, "read with scaling is not raw x table scale", ReadDiag(c, tr, tr.scaled.got, TRUE))
        /\ ChkT(tr, 1, "second write/read raised: " \o tr.rt.exc, tr.rt.res = "ok")
        /\ ChkS(tr, 1, "read(write(f)) differs from f", ReadDiag(c, tr, tr.rt.got, TRUE))
+       \* the same file opened with nogroup = [category of the first tracer]: its
+       \* tracers under their plain names, the others through f.groups[category]
+       /\ ChkT(tr, 1, "read with nogroup=[category] raised: " \o tr.grp.exc, tr.grp.res = "ok")
+       /\ ChkS(tr, 1, "read through the group accessors (nogroup = one category) is not raw x table scale", ReadDiag(c, tr, tr.grp.got, TRUE))
        /\ IF tr.alt.res # "ok" THEN ChkT(tr, 1, "block-walking reader raised: " \o tr.alt.exc, FALSE)
           ELSE ChkS(tr, 1, "block-walking reader presents other data than the memory-mapped one", ReadDiagA(c, tr, tr.alt.got, TRUE, TRUE))
        \* the block-walking object keeps its arrays: written twice, the second
